@@ -16,6 +16,7 @@ from ..canon import _dc
 
 RU = "shangrla/raire/raire_utils.py"
 RA = "shangrla/raire/raire.py"
+AU = "shangrla/core/Audit.py"
 
 META = dict(
     text="Both implementations touch ranks only through comparisons and truthiness (R1, lint), so every predicate is a finite decision "
@@ -223,6 +224,29 @@ def r2(chk):
                     and is_tok(X(tp.value.slice), "[1]") and is_tok(X(tp.slice), "[0]") and is_ballot(present.value)
                 if good_a and good_p and parent(i) is L:
                     ok_merge = body_ok = True
+    # identifiers are taken verbatim (up to surrounding blanks) by every reader of the format: a token that is case-folded,
+    # translated or otherwise rewritten on one side only no longer names the same candidate / contest / card on the other.  A
+    # rewritten token may be *compared* (recognising a keyword case-insensitively), not stored.
+    REWRITES = {"lower", "upper", "casefold", "title", "capitalize", "swapcase", "replace", "translate", "removeprefix", "removesuffix",
+                "zfill", "ljust", "rjust", "center", "expandtabs"}
+    for rel_, q_ in ((RU, "load_contests_from_raire"), (AU, "CVR.from_raire"), (AU, "CVR.from_raire_file")):
+        if not chk.idx.has_func(rel_, q_):
+            continue
+        f_ = chk.fn(rel_, q_)
+        bad = []
+        for c_ in walk_local(f_):
+            if isinstance(c_, ast.Call) and isinstance(c_.func, ast.Attribute) and c_.func.attr in REWRITES:
+                anc = []
+                p_ = parent(c_)
+                while p_ is not None and not isinstance(p_, ast.stmt):
+                    anc.append(p_)
+                    p_ = parent(p_)
+                if not any(isinstance(a_, ast.Compare) for a_ in anc) or isinstance(p_, (ast.Assign, ast.AugAssign, ast.Return)) and \
+                        not any(isinstance(a_, ast.Compare) for a_ in anc):
+                    bad.append(f"line {c_.lineno}: {norm(c_)[:60]}")
+        chk.ob("C14.R2", f"{rel_}:{q_}", "tokens-verbatim", not bad,
+               "the reader stores the file's tokens as they are (blanks stripped): no case folding or rewriting of identifiers",
+               node=f_, strength="N", **({"rewrites": bad} if bad else {}))
     chk.ob("C14.R2", f"{RU}:load_contests_from_raire", "raire-index=k-1", ok_p and ok_i,
            "generator-side reader: the token in column j >= 2 gets index j - 2 (its position in toks[2:]), only listed candidates are "
            "recorded in a fresh dict per line: indices are 0-based, so core rank = generator index + 1 for every ballot", node=lr)
